@@ -340,6 +340,7 @@ def rule_tree2d(chk, db, cfgname):
                     d |= dep.get(y['n'], set())
             return d
         seen = set()
+        g = C.Cfg(f)
         for b in f['blocks']:
             nodes = list(b['ev'])
             if b.get('term') and 'cond' in b['term']:
@@ -357,6 +358,26 @@ def rule_tree2d(chk, db, cfgname):
                     seen.add(key)
                     n += 1
                     ok = x['op'] in ('<=', '>=')
+                    if not ok:
+                        # a strict test is right when it is the SKIP condition (its true edge visits nothing) and wrong
+                        # when it is the ENTER condition: decide by what the true edge reaches before the next test
+                        cnd, _ = C.branch_cond(b)
+                        if cnd is not None and len(b['succ']) == 2:
+                            inner, neg = C.split_negation(cnd)
+                            # x is the condition itself or a conjunct of it (a && b && x): then "x true" holds on the
+                            # condition's true edge
+                            def conjuncts(nd):
+                                nd = T.strip_copy(nd)
+                                if nd.get('k') == 'bin' and nd.get('op') == '&&':
+                                    return conjuncts(nd['l']) + conjuncts(nd['r'])
+                                return [nd]
+                            if not neg and any(T.pstr(cj) == T.pstr(x) for cj in conjuncts(inner)):
+                                tsucc = b['succ'][0]
+                                blk = g.blocks.get(tsucc, {'ev': []})
+                                visits = any(isinstance(y, dict) and y.get('k') == 'var' and
+                                             'P' in dep.get(y.get('n'), set()) for ev2 in blk['ev'] for y in T.walk(ev2))
+                                if not visits:
+                                    ok = True
                     chk.obligation(ok, {'function': f['key'].split(' :: ')[0][:60], 'line': x.get('ln'),
                                         'comparison': T.pstr(x)[:50], 'closed': ok})
                     if not ok:
